@@ -57,7 +57,7 @@ def _jsonable(v):
 
 def run_native(hmod, shape, values, choices):
     """Run the harness on the *unmodified* source with concrete inputs."""
-    mods = get_mods(False, variant=shape.get('variant'))
+    mods = get_mods(False, yields=bool(shape.get('yields')), variant=shape.get('variant'))
     nctx = core.NativeCtx(values, choices)
     prev, core.CUR = core.CUR, None
     prev_ab, core.ABORTED = core.ABORTED, False
@@ -99,13 +99,20 @@ def work(args):
     pid, shape, tier, seed, validate_every = args
     t0 = time.time()
     hmod = harness_module(pid)
-    res = {'shape': shape, 'paths': 0, 'decisions': 0, 'queries': 0, 'vcs': 0, 'vcs_unsat': 0, 'solver_s': 0.0, 'unknown': 0, 'degraded': 0,
+    res = {'known_candidates': {}, 'shape': shape, 'paths': 0, 'decisions': 0, 'queries': 0, 'vcs': 0, 'vcs_unsat': 0, 'solver_s': 0.0, 'unknown': 0, 'degraded': 0,
            'capped': False, 'reaching': 0, 'validated': 0, 'val_mismatch': [], 'failures': [], 'cov': [], 'notes': [], 'error': None, 'sample': None,
            'aborted': 0, 'budget': 0}
     try:
         mods = get_mods(True, yields=bool(shape.get('yields')), variant=shape.get('variant'))
         fn = hmod.HARNESSES[shape['h']]
         ex = core.Explorer(max_paths=shape.get('max_paths', 20000 if tier == 'quick' else 200000), abstract_decode=bool(shape.get('abstract_decode')))
+        if shape.get('xpart'):
+            ex.part = tuple(shape['xpart'])
+        known = [k for k in load_known() if k.get('status') == 'open' and pid in k.get('properties', [])]
+
+        def is_candidate(f):
+            return _match_known(known, pid, shape, [f.label], list(f.events)) is not None
+        ex.count_failure = lambda f: not is_candidate(f)
         rng = random.Random((seed * 1000003) ^ zlib.crc32(json.dumps(shape, sort_keys=True).encode()))
         state = {'n': 0}
 
@@ -196,13 +203,21 @@ def work(args):
             fails.append(core.Failure('unexpected exception in symbolic run: ' + crash, vals, list(ex.choices), list(ex.events), detail=tb))
         seen = set()
         canned_hit = None
-        for f in ex.failures:
-            key = (f.label, tuple(f.events), id(f) if getattr(f, 'canned', False) else 0)
-            if key in seen:
-                continue
-            seen.add(key)
+        cand_count = {}
+        for f in sorted(ex.failures, key=lambda f: is_candidate(f)):
+            if is_candidate(f):
+                # failures matching a known-finding signature: keep two witnesses per label, count the rest
+                cand_count[f.label] = cand_count.get(f.label, 0) + 1
+                if cand_count[f.label] > 2:
+                    continue
+            else:
+                key = (f.label, tuple(f.events), id(f) if getattr(f, 'canned', False) else 0)
+                if key in seen:
+                    continue
+                seen.add(key)
             fails.append(f)
-        for f in fails[:12]:
+        res['known_candidates'] = cand_count
+        for f in fails[:16]:
             n = run_native(hmod, shape, f.values, f.choices)
             rec = {'label': f.label, 'values': f.values, 'choices': f.choices, 'events': f.events, 'detail': f.detail,
                    'native_labels': [x.label for x in n.failures], 'native_events': list(n.events), 'native_crash': n.crash,
@@ -288,7 +303,7 @@ def report(pid, tier, seed, hmod, shapes, results, skipped, wall):
             k = _match_known(known, pid, r['shape'], labels, events)
             if k is not None:
                 known_hits.setdefault(k['id'], [k, 0])
-                known_hits[k['id']][1] += 1
+                known_hits[k['id']][1] += max(1, r.get('known_candidates', {}).get(f['label'], 1)) if f is [x for x in r['failures'] if x['label'] == f['label']][0] else 0
             else:
                 violations.append((r['shape'], f))
     os.makedirs(os.path.join(OUT, 'evidence'), exist_ok=True)
